@@ -61,7 +61,8 @@ def run(ctx):
     # ltq discipline (heaps kept in the buffers): conservation in the production flavour, one sanitizer probe
     for i, (t, leaf, per) in enumerate([(2, 1, 8), (4, 4, 16), (8, 2, 12)]):
         jobs.append(dict(kind='ltq', fl='rel', args=['--mode', 'ltq', '--threads', t, '--leaf', leaf, '--per-thread', per, '--rounds', conc_rounds['rel'] * 2, '--seed', S * 71 + i]))
-    jobs.append(dict(kind='ltqprobe', fl='asan', args=['--mode', 'ltq', '--threads', 4, '--leaf', 4, '--per-thread', 16, '--rounds', conc_rounds['asan'], '--seed', S * 71 + 9]))
+    for i, (t, leaf, y) in enumerate([(4, 4, 0), (6, 2, 100), (3, 1, 0)]):      # the finding is timing dependent: three short attempts
+        jobs.append(dict(kind='ltqprobe', fl='asan', args=['--mode', 'ltq', '--threads', t, '--leaf', leaf, '--per-thread', 16, '--rounds', max(100000, conc_rounds['asan']), '--yield', y, '--seed', S * 71 + 9 + i]))
 
     def one(j):
         cmd = [exe[j['fl']]] + [str(a) for a in j['args']]
@@ -72,11 +73,12 @@ def run(ctx):
         what = '%s %s' % (j['fl'], ' '.join(str(a) for a in j['args']))
         hist = r.of('history')
         if j['kind'] == 'ltqprobe':
-            ctx.evaluations += 1; ctx.add_cov('ltq_sanitizer_probes', 1)
+            ctx.add_cov('ltq_sanitizer_probes', 1)
             uaf = [x for x in r.san if 'heap-use-after-free' in x and 'parsec_hbbuffer_pop_best' in x and 'heap_destroy' in x]
             if uaf:      # keyed by the mechanism, not by harness frame names
                 ctx.violation('ltq:pop_best-reads-freed-heap', '%s: ASan heap-use-after-free: parsec_hbbuffer_pop_best (hbbuffer.c) reads the priority of a heap that '
                               'another thread emptied and freed in heap_remove/heap_destroy (maxheap.c)' % what, r)
+                ctx.note_case(('ltqprobe-uaf', tuple(j['args'][2:])), nontrivial=False)
                 continue
         st = ctx.absorb(r, what, files={'history.json': [h for h in hist if h.get('why') == 'violation']} if hist else None)
         if st == 'stalled':
